@@ -65,6 +65,17 @@ def run_l2(run, cases, rng, n8, nother):
                             rust = "render(td!(Locale::en, %s, count = move || %s))" % (name, lit)
                         calls.append({"id": cid, "flav": "raw", "rust": rust})
                         meta[cid] = {"j": j + 1, "mode": "anchor", "idx": idx + 1, "flav": flav}
+            if ty in ("f32", "f64"):
+                # the representable neighbours of every anchor: half-step positions of the model
+                A = ANCHOR_TXT[ty]
+                near = [(2 * i + 1, "(%s%s).next_up()" % (A[i - 1], ty)) for i in range(1, 7)] + [(2 * i - 1, "(%s%s).next_down()" % (A[i - 1], ty)) for i in range(1, 7)]
+                for flav in ("td_string", "td"):
+                    for pos, expr in near:
+                        cid = len(calls) + 1
+                        call = ("td_string!(Locale::en, %s, count = n).to_string()" % name) if flav == "td_string" else ("render(td!(Locale::en, %s, count = move || n))" % name)
+                        rust = ("let n = %s; println!(\"{{\\\"call\\\":%d,\\\"shown\\\":\\\"{}\\\",\\\"outcome\\\":\\\"Ok\\\",\\\"out\\\":\\\"{}\\\"}}\", n, esc(&%s)); String::new()" % (expr, cid, call))
+                        calls.append({"id": cid, "flav": "raw", "rust": rust})
+                        meta[cid] = {"j": j + 1, "mode": "near", "idx": pos, "flav": flav}
         projects.append({"name": "c04probe%02d" % (len(projects) + 1), "cfg": {"default": "en", "locales": ["en"]},
                          "files": [["en", {"t": "map", "e": entries}]], "calls": calls})
         metas.append(meta)
@@ -82,9 +93,13 @@ def run_l2(run, cases, rng, n8, nother):
             if m["mode"] == "int":
                 if "n" not in ev:
                     continue      # the wrapper line of the loop
-                trace.append({"ev": "Render", "case": k + 1, "j": m["j"], "mode": "int", "n": ev["n"], "idx": 0, "flav": m["flav"], "outcome": ev["outcome"], "out": probe.to_syms(ev["out"])})
+                trace.append({"ev": "Render", "case": k + 1, "j": m["j"], "mode": "int", "n": ev["n"], "idx": 0, "shown": [], "flav": m["flav"], "outcome": ev["outcome"], "out": probe.to_syms(ev["out"])})
+            elif m["mode"] == "near":
+                if "shown" not in ev:
+                    continue
+                trace.append({"ev": "Render", "case": k + 1, "j": m["j"], "mode": "near", "n": 0, "idx": m["idx"], "shown": probe.to_syms(ev["shown"]), "flav": m["flav"], "outcome": ev["outcome"], "out": probe.to_syms(ev["out"])})
             else:
-                trace.append({"ev": "Render", "case": k + 1, "j": m["j"], "mode": "anchor", "n": 0, "idx": m["idx"], "flav": m["flav"], "outcome": ev["outcome"], "out": probe.to_syms(ev["out"])})
+                trace.append({"ev": "Render", "case": k + 1, "j": m["j"], "mode": "anchor", "n": 0, "idx": m["idx"], "shown": [], "flav": m["flav"], "outcome": ev["outcome"], "out": probe.to_syms(ev["out"])})
     trace.append({"ev": "End"})
     wd = os.path.join(run.workdir, "l2")
     os.makedirs(wd, exist_ok=True)
@@ -99,7 +114,7 @@ def run_l2(run, cases, rng, n8, nother):
     for rj in rejects:
         ev = trace[rj["l"] - 1]
         a = itemss[ev["case"] - 1][ev["j"] - 1]
-        run.violation("l2;%s;ty=%s;branches=%s;count=%s" % (ev["flav"], a["ty"], json.dumps(a["branches"], sort_keys=True), ev["n"] if ev["mode"] == "int" else "anchor%d" % ev["idx"]),
+        run.violation("l2;%s;ty=%s;branches=%s;count=%s" % (ev["flav"], a["ty"], json.dumps(a["branches"], sort_keys=True), ev["n"] if ev["mode"] == "int" else ("anchor%d" % ev["idx"] if ev["mode"] == "anchor" else "half-step%d" % ev["idx"])),
                       "run-time selection differs: rendered %r" % vp.text_of(ev["out"]), {"event": ev, "decl": a})
     return len(trace) - 1
 
